@@ -398,4 +398,74 @@ theorem collectRooms_eq {rid : Grid2 Int} {h w : Nat} (hr : Dims h w rid) :
       · have : ¬ gv rid y x = (k : Int) := by omega
         simp [hk, this]
 
+/-- the colour classes ordered by their least cell, each in row-major order -/
+def colorRooms (h w : Nat) (col : Nat × Nat → Nat) : List (List (Nat × Nat)) :=
+  ((cells h w).filter (isLeader h w col)).map fun c => (cells h w).filter fun a => col a == col c
+
+theorem ScanInv.all_marked {h w : Nat} {col : Nat × Nat → Nat} {rid : Grid2 Int} {last : Int}
+    (inv : ScanInv h w col (cells h w) rid last) {a : Nat × Nat} (h1 : a.1 < h) (h2 : a.2 < w) :
+    gv rid a.1 a.2 ≠ -1 :=
+  (inv.marked a h1 h2).2 ⟨a, mem_cells.2 ⟨h1, h2⟩, rfl⟩
+
+theorem ScanInv.collect {h w : Nat} {col : Nat × Nat → Nat} {rid : Grid2 Int} {last : Int}
+    (inv : ScanInv h w col (cells h w) rid last) :
+    collectRooms rid (cells h w) (List.replicate last.toNat []) = .ok (colorRooms h w col) := by
+  have hn : last.toNat = ((cells h w).filter (isLeader h w col)).length := by rw [inv.last_eq]; simp
+  unfold colorRooms
+  rw [collectRooms_eq inv.dims]
+  · congr 1
+    apply List.ext_getElem
+    · simp [hn]
+    · intro k hk1 hk2
+      simp only [List.length_mapIdx, List.length_replicate] at hk1
+      have hkL : k < ((cells h w).filter (isLeader h w col)).length := by omega
+      simp only [List.getElem_mapIdx, List.getElem_replicate, List.nil_append, List.getElem_map]
+      have hLk := List.getElem_mem hkL
+      have hLb := mem_cells.1 (List.mem_filter.1 hLk).1
+      have hid : gv rid (((cells h w).filter (isLeader h w col))[k]).1 (((cells h w).filter (isLeader h w col))[k]).2
+          = (k : Int) := by
+        have := congrArg (fun l => l[k]?) inv.ids
+        simpa [hkL] using this
+      apply List.filter_congr
+      intro a ha
+      have hab := mem_cells.1 ha
+      have := inv.inj a _ hab.1 hab.2 hLb.1 hLb.2 (inv.all_marked hab.1 hab.2) (inv.all_marked hLb.1 hLb.2)
+      rw [hid] at this
+      exact Bool.eq_iff_iff.2 (by simp only [beq_iff_eq]; exact this)
+  · intro p hp
+    have hb := mem_cells.1 hp
+    have := inv.below p hb.1 hb.2 (inv.all_marked hb.1 hb.2)
+    refine ⟨hb.1, hb.2, this.1, ?_⟩
+    simp only [List.length_replicate]
+    omega
+
+theorem roomsDeCore_colors {hz vt : Grid2 Bool} {h w : Nat} {col : Nat × Nat → Nat} (cs : ColorSys hz vt h w col)
+    (hh : h ≠ 0) (hw : w ≠ 0) {s : Str} {i k : Nat} {V H : PyVal} (allow : Bool)
+    (hbd : bordersDe h w s i = .ok (k, [.tuple [.list [V], .list [H]]]))
+    (hV : toBoolGrid V = .ok vt) (hH : toBoolGrid H = .ok hz) :
+    roomsDeCore ⟨h, w⟩ allow s i = .ok (k, [roomsVal (colorRooms h w col)]) := by
+  obtain ⟨rid, last, es, inv⟩ := scanFill_spec cs (cells h w) [] (List.replicate h (List.replicate w (-1))) 0 rfl
+    (ScanInv.init h w col)
+  have hcells : ∀ p ∈ cells h w, p.1 < h ∧ p.2 < w := fun p hp => mem_cells.1 hp
+  have hred : redundantCheck hz vt rid h w (cells h w) = .ok () := by
+    apply redundantCheck_ok cs.hhz cs.hvt inv.dims _ _ _ hcells
+    · intro y x h1 h2 hb
+      have h3 : y < h := by omega
+      have := inv.inj (y, x) (y + 1, x) h3 h2 h1 h2 (inv.all_marked (a := (y, x)) h3 h2)
+        (inv.all_marked (a := (y + 1, x)) h1 h2)
+      intro e
+      have := (cs.hz_col y x h1 h2).2 (this.1 e)
+      rw [hb] at this; cases this
+    · intro y x h1 h2 hb
+      have h3 : x < w := by omega
+      have := inv.inj (y, x) (y, x + 1) h1 h3 h1 h2 (inv.all_marked (a := (y, x)) h1 h3)
+        (inv.all_marked (a := (y, x + 1)) h1 h2)
+      intro e
+      have := (cs.vt_col y x h1 h2).2 (this.1 e)
+      rw [hb] at this; cases this
+  unfold roomsDeCore
+  simp only [hbd, hV, hH, es, inv.collect, hred, Outcome.bind_ok]
+  rw [if_neg (by simp [hh, hw])]
+  cases allow <;> simp
+
 end Cspuz.Ser
